@@ -10,9 +10,12 @@ namespace Sidetree.Expected
 def anchorUntilParamApplier : String := "MaxOperationTimeDelta"
 def anchorUntilParamParser : String := "MaxOperationTimeDelta"
 
-/-- C09: `verifyAnchoringTimeRange` as a list of (lhs, operator, rhs) refusals, in order -/
+/-- C09: `verifyAnchoringTimeRange` as a list of (lhs, operator, rhs): the value the comparisons
+    refer to, then the refusals, in order. Since the D23 repair the three quantities are compared as
+    integers (`big.Int`): `a.Cmp(b) > 0` is `a > b`, `a.Cmp(b) < 0` is `a < b`. -/
 def windowRefusals : List (String × String × String) :=
-  [("from", ">", "int64(anchor)"), ("s.getAnchorUntil(from, until)", "<", "int64(anchor)")]
+  [("anchorTime", ":=", "new(big.Int).SetUint64(anchor)"),
+   ("big.NewInt(from).Cmp(anchorTime)", ">", "0"), ("s.getAnchorUntil(from, until).Cmp(anchorTime)", "<", "0")]
 
 /-- C09: guard of the "nothing to check" early return -/
 def windowUnsetGuard : String := "from == 0 && until == 0"
